@@ -779,12 +779,55 @@ def gen_dop853_module():
     return em
 
 
+# ------------------------------------------------------------------ Radau IIA (s = 3): abscissae only
+RADAU_DIGITS = 30
+
+
+def radau_nodes():
+    """(c1, c2, c3) of Radau IIA(5): c1 < c2 roots of 10 c^2 - 8 c + 1 = 0, i.e. (4 -+ sqrt 6)/10, c3 = 1.
+    c1, c2 as rationals LO/10^30 with LO = floor(c 10^30): within 1e-30 of the irrational node (the bracket is proved by Apalache)."""
+    from math import isqrt
+    S = 10 ** RADAU_DIGITS
+    r = isqrt(6 * S * S * 100)            # floor(sqrt(6) * 10^31)
+    lo1 = (4 * S * 10 - r - 1) // 100     # floor((4 - sqrt 6)/10 * 10^30): sqrt 6 is irrational, so (4 S 10 - sqrt6 S 10) is not an integer
+    lo2 = (4 * S * 10 + r) // 100
+    return F(lo1, S), F(lo2, S), F(1)
+
+
+def gen_radau_module():
+    em = Emit("TableauxRADAU", "Radau IIA(5) abscissae: c1 < c2 are the roots of 10 c^2 - 8 c + 1, bracketed to 1e-%d; c3 = 1" % RADAU_DIGITS)
+    c1, c2, _ = radau_nodes()
+    S = 10 ** RADAU_DIGITS
+    em.comment("c_i in [C_i_LO / SC, (C_i_LO + 1) / SC];  P(n) = 10 n^2 - 8 n SC + SC^2 is SC^2 times the node polynomial at n / SC")
+    em.define("SC", "1" + "0" * RADAU_DIGITS)
+    em.define("C1_LO", str(int(c1 * S)))
+    em.define("C2_LO", str(int(c2 * S)))
+    em.lines += ["\\* @type: Int => Int;", "P(n) == 10 * n * n - 8 * n * SC + SC * SC", ""]
+    D = RADAU_DIGITS
+    for name, expr, desc in [
+        ("c1_lo", "P(C1_LO) > 0", "P > 0 at C1_LO / 10^%d" % D),
+        ("c1_hi", "P(C1_LO + 1) < 0", "P < 0 at (C1_LO + 1) / 10^%d: the smaller root of 10c^2 - 8c + 1 lies in between" % D),
+        ("c2_lo", "P(C2_LO) < 0", "P < 0 at C2_LO / 10^%d" % D),
+        ("c2_hi", "P(C2_LO + 1) > 0", "P > 0 at (C2_LO + 1) / 10^%d: the larger root lies in between" % D),
+        ("pos", "0 < C1_LO", "0 < c1"),
+        ("c1_left", "5 * (C1_LO + 1) < 2 * SC", "c1 < 2/5 (the vertex of the parabola: exactly one root on each side)"),
+        ("c2_right", "2 * SC < 5 * C2_LO", "2/5 < c2"),
+        ("c2_lt1", "C2_LO + 1 < SC", "c2 < 1 = c3"),
+        ("vieta_sum", "Abs(5 * (C1_LO + C2_LO) - 4 * SC) <= 10", "c1 + c2 = 4/5 within the bracket width"),
+        ("vieta_prod", "Abs(10 * C1_LO * C2_LO - SC * SC) <= 20 * SC", "c1 c2 = 1/10 within the bracket width"),
+    ]:
+        em.ob("Ob_C02_RADAU_" + name, expr, "C02", "pos", desc)
+    em.canary("Canary_C02_RADAU", "P(C2_LO + 36000 * 1000000000000000000000) < 0", "C02",
+              "a node mistyped in the 5th digit (0.644984... for 0.644948...) is NOT inside the bracket")
+    return em
+
+
 def generate(outdir=SPEC_DIR, methods=METHODS):
     """(Re)write the .tla modules; returns {method: Emit}."""
     os.makedirs(outdir, exist_ok=True)
     out = {}
     for m in methods:
-        em = gen_dop853_module() if m == "DOP853" else gen_rk_module(tab(m))
+        em = gen_radau_module() if m == "RADAU" else gen_dop853_module() if m == "DOP853" else gen_rk_module(tab(m))
         text = em.finish()
         path = os.path.join(outdir, em.module + ".tla")
         old = open(path).read() if os.path.exists(path) else None
